@@ -7,6 +7,14 @@
     distribution spiders of `spider_map_arrow`; `subst_of_pre4`: its quotient is the quotient of the
     substitution presentation `substP / substR` (expanded nodes next to `X`, expanded incidence
     positions glued to the interfaces of `X`).
+  * `spiderMapArrow_unfold / _parts / _isQuot`: the model's `spider_map_arrow` is
+    `(sx ; (id ⊗ fx)) ; yt` and its result is the quotient of `pre4` by `rel4`.
+  * `subst_generic`: substituting the generators themselves presents the diagram (identity functor).
+  * block arithmetic (`blockS`, `flatMap_blockS_*`), positions of the expanded nodes
+    (`blkOf / offOf / liftPos`, `liftPos_bijOn`, `flatMap_blockS_map_liftPos`, `lift_glue`).
+  * the substitution presentation respects `≅` of the substituted diagram (`subst_congr`),
+    juxtaposition (`subst_juxt`), gluing (`subst_glue`), relabelling (`subst_relabel`) and
+    quotients of the expanded nodes (`subst_quotient`).
 -/
 import OHVerif.Lemmas.LaxIso
 import OHVerif.Props.C12Type
